@@ -13,5 +13,6 @@ CONSTANTS
   Bads = {{}}
   Longs = {FALSE}
   RootSet = {0, 1, 2}
+  Transforms = {"none"}
 INVARIANTS MCTypeOK MCSound MCSoundSkip MCComplete MCCompleteSkip MCNeverSplit MCBadAlone MCOthersUnaffected MCFilterHonoured
 CHECK_DEADLOCK FALSE
